@@ -137,6 +137,17 @@ std::vector<std::pair<std::string, typename F::L>> build(const F& f, const Spec&
     L t = a[0];  // compute_average overwrites the object it is called on
     t.compute_average(p);
     r.emplace_back("compute_average", t);
+    if (all_variants) {
+      // ... and on an object that has been queried before (whatever it remembers about itself must not survive): the
+      // argument with the fewest levels, asked for its size and total integral first
+      std::size_t k = 0;
+      for (std::size_t i = 1; i < a.size(); ++i) if (a[i].size() < a[k].size()) k = i;
+      L u = a[k];
+      volatile double sink = static_cast<double>(u.size()) + u.compute_integral_of_landscape() + u.compute_scalar_product(u);
+      (void)sink;
+      u.compute_average(p);
+      r.emplace_back("compute_average on an object queried before", u);
+    }
   } else if (s.op == "lincomb") {
     r.emplace_back("c0*a+c1*b", c(0) * a[0] + c(1) * a[1]);
   } else if (s.op == "sum_diff") {
